@@ -1,6 +1,6 @@
 # Table consumed by gen_manifest.py.  One chk(...) per claimed property.
 NOTES = ("Technique family: deterministic simulation with fault injection only; six properties are pure functions of their input and are listed as not applicable (DESIGN.md section 7). "
-         "Genuine defects found by the checks are recorded in known_findings.json (fixed: F1-F9 as fix: commits in /repo; known: K1, K2).")
+         "Genuine defects found by the checks are recorded in known_findings.json (fixed: F1-F12 as fix: commits in /repo; known: K2).")
 
 chk("C06",
     "deterministic simulation: seeded operation histories (edges, marks, cycle detection, pickle restart) on the real EquivalenceDB vs a reachability reference model",
@@ -53,7 +53,7 @@ chk("C04",
 chk("C05",
     "deterministic simulation: seeded insertion/query histories into the real default and forget rule DBs (queries between arbitrary insertions) and seeded rule dictionaries into every tree finder under controlled clock and random source, vs greatest-fixed-point / bottom-up references collapsed by SCC, a tree validator and brute-force minimum tree size",
     "Seeded exploration of histories, random-source policies and minimisation-loop lengths.",
-    "Trusted: dsim/ref/trees.py, dsim/ref/graph.py. <= 10 labels. Known finding K1 (breadth-first generator) is reported as KNOWN-FINDING.",
+    "Trusted: dsim/ref/trees.py, dsim/ref/graph.py. <= 10 labels.",
     "6.5")
 
 chk("C14",
